@@ -44,13 +44,18 @@ def main():
                 continue
             edits = m.get("edits") or [(m["file"], m["old"], m["new"])]
             ok_apply = True
-            for (fn, old, new) in edits:
+            for ed in edits:
+                fn, old, new = ed[0], ed[1], ed[2]
                 p = os.path.join(WT, fn)
                 s = open(p).read()
                 if s.count(old) < 1:
                     ok_apply = False
                     break
-                s = s.replace(old, new, 1)
+                if len(ed) > 3 and ed[3] == "all":
+                    import re as _re
+                    s = _re.sub(r"\b%s\b" % _re.escape(old), new, s)
+                else:
+                    s = s.replace(old, new, 1)
                 open(p, "w").write(s)
             if not ok_apply:
                 res.append((m["id"], "MUTANT-DOES-NOT-APPLY", ""))
